@@ -107,12 +107,35 @@ func genC15(seed uint64, idx int) c15Data {
 	} else if inMode == 2 {
 		sc.Flags = append(sc.Flags, "-s")
 	}
-	d.Batch = kernel.Pick(r, []string{"delivery", "delivery", "truncation", "truncation", "read-error", "write-fault"})
+	d.Batch = kernel.Pick(r, []string{"delivery", "delivery", "delivery", "truncation", "truncation", "truncation", "read-error", "read-error", "write-fault", "write-fault", "usage", "compile"})
 	ndocs := r.Range(0, 5)
 	docs := genDocs(r, ndocs)
 	text := joinDocs(r, docs, r.Bool(0.7))
 	sc.Query = genC15Query(r, ndocs, d.Batch != "read-error")
 	switch d.Batch {
+	case "usage":
+		// usage errors: status 2, nothing on stdout, whatever the input holds
+		switch r.Intn(5) {
+		case 0:
+			sc.PreArgs = []string{kernel.Pick(r, []string{"--nosuchflag", "--compact", "-Z", "--raw-output1", "--exit"})}
+		case 1:
+			sc.PreArgs = []string{"--arg", "a"}
+			sc.NoQuery = true
+			sc.Flags = nil
+		case 2:
+			sc.Flags = nil
+			sc.PreArgs = []string{"--indent", kernel.Pick(r, []string{"x", "1.5", "", "two"})}
+			sc.Query = "."
+		case 3:
+			sc.PreArgs = []string{"--compact-output=1"}
+		default:
+			sc.PreArgs = []string{"--argjson", "a"}
+			sc.NoQuery = true
+			sc.Flags = nil
+		}
+	case "compile":
+		// query parse / compile errors: status 3, nothing on stdout
+		sc.Query = kernel.Pick(r, []string{".a |", "foo(", "nosuchfunction", "$undefined", ". as [$a] | $b", "{", "1 +", "if . then 1", ".[", "\"unterminated", "def f: 1; g", "1 as $x | $y", "break $nolabel", "import \"nosuchmodule\" as m; .", ". |= ", "reduce . as $x", ".. ..a"})
 	case "truncation":
 		if r.Bool(0.5) && len(text) > 0 {
 			text = text[:r.Intn(len(text)+1)]
@@ -177,6 +200,23 @@ func judgeC15(d *c15Data, res Result) *kernel.Violation {
 	sc := &d.Scenario
 	if res.Panicked != "" {
 		return c15viol(d, "panic", "the command panicked: %s", res.Panicked)
+	}
+	switch d.Batch {
+	case "usage", "compile":
+		want := 2
+		if d.Batch == "compile" {
+			want = 3
+		}
+		if res.Exit != want {
+			return c15viol(d, "status", "%s error: exit status %d, the statement prescribes %d; stderr %q", d.Batch, res.Exit, want, kernel.Short2(res.Stderr, 300))
+		}
+		if res.Stdout != "" {
+			return c15viol(d, "stdout", "%s error: stdout must stay empty, got %q", d.Batch, kernel.Short2(res.Stdout, 300))
+		}
+		if res.Stderr == "" {
+			return c15viol(d, "stderr", "%s error: no diagnostic on stderr", d.Batch)
+		}
+		return nil
 	}
 	exp, err := sc.Model(Vars{})
 	if err != nil {
@@ -287,7 +327,7 @@ func (C15) RunUnit(env *kernel.Env, unit int) {
 	for k := 0; k < c15Unit; k++ {
 		d := genC15(env.Seed, unit*c15Unit+k)
 		out.Mark(kernel.NewCase("C15", d.Batch, d))
-		if _, err := d.Scenario.Model(Vars{}); err != nil {
+		if _, err := d.Scenario.Model(Vars{}); err != nil && d.Batch != "usage" && d.Batch != "compile" {
 			out.Inc("generator_query_rejected")
 			continue
 		}
